@@ -4,6 +4,7 @@ import (
 	"go/constant"
 	"go/token"
 	"go/types"
+	"strings"
 
 	"golang.org/x/tools/go/ssa"
 )
@@ -1258,4 +1259,48 @@ func BackingOrigins(p *Prog, v ssa.Value, maxDepth int, visit func(ssa.Value) bo
 		}
 	}
 	w(v, nil)
+}
+
+// ---------- package-level variables initialised once ----------
+
+// GlobalInit resolves a load of a package-level variable of the module that is assigned exactly once in the
+// whole module (its initialiser in the package's init) to the assigned value; otherwise it returns nil.
+func (p *Prog) GlobalInit(v ssa.Value) ssa.Value {
+	u, ok := v.(*ssa.UnOp)
+	if !ok || u.Op != token.MUL {
+		return nil
+	}
+	g, ok := u.X.(*ssa.Global)
+	if !ok || g.Pkg == nil || !strings.HasPrefix(g.Pkg.Pkg.Path(), ModPath) {
+		return nil
+	}
+	var stores []*ssa.Store
+	scan := func(fn *ssa.Function) {
+		if fn == nil {
+			return
+		}
+		for _, b := range fn.Blocks {
+			for _, in := range b.Instrs {
+				if st, ok := in.(*ssa.Store); ok && st.Addr == ssa.Value(g) {
+					stores = append(stores, st)
+				}
+				// address taken: anything may write it
+				if ci, ok := in.(ssa.CallInstruction); ok {
+					for _, a := range ci.Common().Args {
+						if a == ssa.Value(g) {
+							stores = append(stores, nil)
+						}
+					}
+				}
+			}
+		}
+	}
+	for _, fn := range p.ModFuncs {
+		scan(fn)
+	}
+	scan(g.Pkg.Func("init"))
+	if len(stores) != 1 || stores[0] == nil {
+		return nil
+	}
+	return stores[0].Val
 }
